@@ -12,10 +12,69 @@ let rec show = function
   | SStruct fs -> "(r " ^ String.concat " " (List.map (function Some x -> show x | None -> "-") fs) ^ ")"
   | SVariant (d, fs) -> "(v " ^ string_of_z d ^ " " ^ String.concat " " (List.map (function Some x -> show x | None -> "-") fs) ^ ")"
 
+(* ---- the converter model: conv <prefix-coded file> -> the SliceFile value it produces.  {x} = a count followed by that many x.
+   file   = hexpath hexmodule ATTRS(module) ATTRS(file) {DEF}
+   ATTRS  = {hexdirective {hexarg}}
+   DOC    = - | doc MSG {hexlink} {hexname MSG} {(hexname|-) MSG}        (overview, see, params, returns)
+   MSG    = {(t hextext) | (l hexid)}
+   TREF   = TARGET opt ATTRS ;  TARGET = n hexid | p hexname | q TREF | d TREF TREF | r TREF TREF
+   FIELD  = hexname ATTRS DOC TAG TREF ;  PARAM = hexname ATTRS TAG stream TREF ;  TAG = - | int
+   DEF    = struct hexname ATTRS DOC compact {FIELD} | iface hexname ATTRS DOC {hexid} {OP}
+          | enum hexname ATTRS DOC compact unchecked (-|hexunder) {ENUMERATOR} | custom hexname ATTRS DOC | alias hexname ATTRS DOC TREF
+   OP     = hexname ATTRS DOC idempotent {PARAM} {PARAM} ;  ENUMERATOR = hexname ATTRS DOC value {FIELD} ---- *)
+let toks : string list ref = ref []
+let next () = match !toks with t :: r -> toks := r; t | [] -> failwith "conv: out of tokens"
+let str () = bytes_of_hex (next ())
+let int () = int_of_string (next ())
+let bool_ () = next () = "1"
+let rec times n f = if n = 0 then [] else let x = f () in x :: times (n - 1) f
+let many f = let n = int () in times n f
+let attr () = let d = str () in let args = many str in { ca_dir = d; ca_args = args }
+let attrs () = many attr
+let msg () = many (fun () -> match next () with "t" -> MText (str ()) | "l" -> MLink (str ()) | x -> failwith ("conv: message " ^ x))
+let doc () = match next () with
+  | "-" -> None
+  | "doc" ->
+    let ov = msg () in let see = many str in
+    let ps = many (fun () -> let n = str () in let m = msg () in (n, m)) in
+    let rs = many (fun () -> let n = (match next () with "-" -> None | h -> Some (bytes_of_hex h)) in let m = msg () in (n, m)) in
+    Some { cd_overview = ov; cd_see = see; cd_params = ps; cd_returns = rs }
+  | x -> failwith ("conv: doc " ^ x)
+let tag () = match next () with "-" -> None | v -> Some (z_of_string v)
+let rec tref () = let t = target () in let o = bool_ () in let a = attrs () in CRef (t, o, a)
+and target () = match next () with
+  | "n" -> GNamed (str ()) | "p" -> GPrim (str ())
+  | "q" -> GSeq (tref ())
+  | "d" -> let k = tref () in let v = tref () in GDict (k, v)
+  | "r" -> let s = tref () in let f = tref () in GRes (s, f)
+  | x -> failwith ("conv: target " ^ x)
+let field () = let n = str () in let a = attrs () in let d = doc () in let t = tag () in let ty = tref () in
+  { cf_name = n; cf_attrs = a; cf_doc = d; cf_tag = t; cf_type = ty }
+let param () = let n = str () in let a = attrs () in let t = tag () in let s = bool_ () in let ty = tref () in
+  { cp_name = n; cp_attrs = a; cp_tag = t; cp_stream = s; cp_type = ty }
+let op () = let n = str () in let a = attrs () in let d = doc () in let i = bool_ () in let ps = many param in let rs = many param in
+  { co_name = n; co_attrs = a; co_doc = d; co_idem = i; co_params = ps; co_rets = rs }
+let enumerator () = let n = str () in let a = attrs () in let d = doc () in let v = z_of_string (next ()) in let fs = many field in
+  { ce_name = n; ce_attrs = a; ce_doc = d; ce_value = v; ce_fields = fs }
+let def () = match next () with
+  | "struct" -> let n = str () in let a = attrs () in let d = doc () in let c = bool_ () in let fs = many field in CStruct (n, a, d, c, fs)
+  | "iface" -> let n = str () in let a = attrs () in let d = doc () in let bs = many str in let os = many op in CIface (n, a, d, bs, os)
+  | "enum" -> let n = str () in let a = attrs () in let d = doc () in let c = bool_ () in let u = bool_ () in
+    let un = (match next () with "-" -> None | h -> Some (bytes_of_hex h)) in let es = many enumerator in CEnum (n, a, d, c, u, un, es)
+  | "custom" -> let n = str () in let a = attrs () in let d = doc () in CCustom (n, a, d)
+  | "alias" -> let n = str () in let a = attrs () in let d = doc () in let t = tref () in CAlias (n, a, d, t)
+  | x -> failwith ("conv: definition " ^ x)
+let conv_handle ts =
+  toks := ts;
+  let p = str () in let m = str () in let ma = attrs () in let fa = attrs () in let ds = many def in
+  if !toks <> [] then failwith "conv: tokens left over";
+  show (conv_file { cfl_path = p; cfl_module = m; cfl_mattrs = ma; cfl_fattrs = fa; cfl_defs = ds })
+
 let handle = function
   | ["req"; h] ->
     (match dec_request (bytes_of_hex h) with
      | DOk (r, rest) -> Printf.sprintf "ok %d %d (req %s %s %s %s)" (List.length rest) (if request_ids_wellfounded r then 1 else 0)
                           (show r.rq_operation) (show r.rq_sources) (show r.rq_references) (show r.rq_arguments)
      | DErr e -> "err " ^ M_codec.show_err e)
+  | "conv" :: ts -> conv_handle ts
   | _ -> "?"
